@@ -212,6 +212,14 @@ def run(ck):
             if numpy.abs(R2 - R).max() > 1e-13 * scale:
                 ck.fail("repeat:redfield", "a second RedfieldRateMatrix from the same Hamiltonian and system-bath interaction differs",
                         inp, float(numpy.abs(R2 - R).max()))
+            # deferred initialisation (initialize=False) and a recalculation on the same object: the same matrix both times
+            Rd = RedfieldRateMatrix(ham, sbi, initialize=False)
+            Rd._set_rates(); rd1 = numpy.array(Rd.data).copy()
+            Rd._set_rates(); rd2 = numpy.array(Rd.data).copy()
+            if numpy.abs(rd1 - R).max() > 1e-13 * scale or numpy.abs(rd2 - R).max() > 1e-13 * scale:
+                ck.fail("repeat:redfield:recalculated", "rates calculated with deferred initialisation / calculated a second time on the same object differ from "
+                        "those of a new object (columns then no longer sum to zero)", inp,
+                        [float(numpy.abs(rd1 - R).max() / scale), float(numpy.abs(rd2 - R).max() / scale), float(numpy.abs(rd2.sum(axis=0)).max() / scale)])
         except Exception as e:
             ck.fail("raises:RedfieldRateMatrix:second", "second construction raised %r" % (e,), inp)
         # the same system with its system-bath interaction put together by hand (correlation-function matrix created with the number of
